@@ -293,7 +293,26 @@ def _emit(r, p):
     if w is None:
         raise AnalysisError("write-back function not found")
     writes = [n for n in walk_function(w.node) if isinstance(n, ast.Call) and isinstance(n.func, ast.Attribute) and n.func.attr == "write"]
-    texts = [norm(n.args[0]) for n in sorted(writes, key=lambda n: n.lineno) if n.args]
+    single = {}
+    for n in walk_function(w.node):
+        if isinstance(n, ast.Assign) and len(n.targets) == 1 and isinstance(n.targets[0], ast.Name):
+            single.setdefault(n.targets[0].id, []).append(n.value)
+
+    def parts(e, depth=0):
+        if isinstance(e, ast.BinOp) and isinstance(e.op, ast.Add):
+            return parts(e.left, depth) + parts(e.right, depth)
+        if isinstance(e, ast.Name) and len(single.get(e.id, ())) == 1 and depth < 3:
+            return parts(single[e.id][0], depth + 1)
+        if isinstance(e, ast.Call) and isinstance(e.func, ast.Attribute) and e.func.attr == "join" and e.args:
+            a = e.args[0]
+            if isinstance(a, ast.Name) and len(single.get(a.id, ())) == 1 and depth < 3:
+                return ["%s.join(%s)" % (norm(e.func.value), norm(single[a.id][0]))]
+        return [norm(e)]
+
+    texts = []
+    for n in sorted(writes, key=lambda n: n.lineno):
+        if n.args:
+            texts.extend(parts(n.args[0]))
     ov = w.params[0]
     if texts == ["'\\n'.join(%s.get_lines()[1:])" % ov, "'\\n'"]:
         r.ok("C08.emit", w.key, "writes '\\n'.join(get_lines()[1:]) followed by one '\\n'")
@@ -322,6 +341,8 @@ VARIANTS = [
             rule="C08.schema", key="hierachy"),
     Variant("C08", "write-back without the final newline", "fire",
             [("vsg/apply_rules.py", '            oFile.write("\\n".join(oVhdlFile.get_lines()[1:]))\n            oFile.write("\\n")\n', '            oFile.write("\\n".join(oVhdlFile.get_lines()[1:]))\n')], rule="C08.emit"),
+    Variant("C08", "twin: write-back builds the text in a local first", "silent",
+            [("vsg/apply_rules.py", '            oFile.write("\\n".join(oVhdlFile.get_lines()[1:]))\n            oFile.write("\\n")\n', '            lLines = oVhdlFile.get_lines()[1:]\n            sText = "\\n".join(lLines) + "\\n"\n            oFile.write(sText)\n')]),
     Variant("C08", "twin: refresh indents unconditionally each phase", "silent",
             [("vsg/rule_list.py", "            # Update indents before checking indent\n            if phase == 4:\n                self.oVhdlFile.set_token_indent()\n", "            # Update indents before checking indent\n            self.oVhdlFile.set_token_indent()\n")]),
 ]
